@@ -64,6 +64,7 @@ func ruleT1(c *Ctx) {
 			keys []ast.Expr
 			val  ast.Expr
 			pos  token.Pos
+			num  *int64 // the row's number when it is its position in an indexed table
 		}
 		var rows []numRow
 		for _, sw := range switchesIn(fd.Body) {
@@ -79,17 +80,30 @@ func ruleT1(c *Ctx) {
 					c.fail("T1", fmt.Sprintf("%s.%s[%s]", t.pkg, t.fn, keysStr(info, row.Keys)), c.L.Pos(row.Pos), "undecided: clause does not return a value")
 					continue
 				}
-				rows = append(rows, numRow{row.Keys, ret.Results[0], row.Pos})
+				rows = append(rows, numRow{keys: row.Keys, val: ret.Results[0], pos: row.Pos})
 			}
 		}
 		// the same table written as a read-only map[string]int the function indexes by the name
 		if len(rows) == 0 {
 			for _, kv := range readOnlyStringTable(c, p, fd) {
-				rows = append(rows, numRow{[]ast.Expr{kv.Key}, kv.Value, kv.Pos()})
+				rows = append(rows, numRow{keys: []ast.Expr{kv.Key}, val: kv.Value, pos: kv.Pos()})
+			}
+		}
+		// the same table written as names-by-number: for num, names := range T { for … if name == x { return num } }
+		if len(rows) == 0 {
+			for _, r := range namesByNumberTable(p, fd) {
+				num := r.num
+				rows = append(rows, numRow{keys: r.names, pos: r.pos, num: &num})
 			}
 		}
 		for _, row := range rows {
-			val, ok := constInt(info, row.val)
+			var val int64
+			ok := false
+			if row.num != nil {
+				val, ok = *row.num, true
+			} else {
+				val, ok = constInt(info, row.val)
+			}
 			for _, k := range row.keys {
 				name, kok := constStr(info, k)
 				key := fmt.Sprintf("%s.%s[%s]", t.pkg, t.fn, name)
@@ -424,8 +438,30 @@ func ruleT2(c *Ctx) {
 		c.fail("T2", "handler-map-undecided", "", strings.Join(hm.Errs, "; "))
 		return
 	}
+	// a byte table belongs to this rule when the statement driver consults it (opcodeMap in
+	// processOcode); a table only an operand-taking handler reads (condition codes, …) is that
+	// handler's business
+	driverUses := map[string]bool{}
+	driverFound := false
+	for _, dn := range []string{"processOcode", "GenerateX86"} {
+		if fd, dp := c.L.FuncDecl("internal/codegen", dn); fd != nil && fd.Body != nil {
+			driverFound = true
+			ast.Inspect(fd.Body, func(n ast.Node) bool {
+				if id, ok := n.(*ast.Ident); ok {
+					if v, ok := dp.TypesInfo.Uses[id].(*types.Var); ok && v.Pkg() != nil && v.Parent() == v.Pkg().Scope() {
+						driverUses[v.Name()] = true
+					}
+				}
+				return true
+			})
+		}
+	}
 	unreachable := 0
 	for _, mv := range sortedKeys(maps) {
+		if driverFound && !driverUses[mv] {
+			c.ok("T2", "internal/codegen."+mv+"|not consulted by the statement driver", "", "left to the rules of the handler that reads it")
+			continue
+		}
 		tab := maps[mv]
 		for _, k := range sortedKeys(tab) {
 			key := fmt.Sprintf("internal/codegen.%s[%s]", mv, k)
@@ -584,4 +620,96 @@ func isMemberValue(e ast.Expr) bool {
 		return len(x.Elts) == 0
 	}
 	return false
+}
+
+type namesRow struct {
+	num   int64
+	names []ast.Expr
+	pos   token.Pos
+}
+
+// namesByNumberTable: fd ranges `for K, V := range T` over a package-level array/slice of
+// []string initialised by a composite literal, compares an element of V with a parameter and
+// returns K; the rows of T with their indexes.
+func namesByNumberTable(p *packagesPackage, fd *ast.FuncDecl) []namesRow {
+	info := p.TypesInfo
+	var out []namesRow
+	ast.Inspect(fd.Body, func(n ast.Node) bool {
+		rs, ok := n.(*ast.RangeStmt)
+		if !ok || out != nil {
+			return true
+		}
+		tid, ok := ast.Unparen(rs.X).(*ast.Ident)
+		kid, ok2 := rs.Key.(*ast.Ident)
+		if !ok || !ok2 || kid.Name == "_" {
+			return true
+		}
+		tv, ok := info.Uses[tid].(*types.Var)
+		if !ok || tv.Pkg() == nil || tv.Parent() != tv.Pkg().Scope() {
+			return true
+		}
+		// returns K somewhere inside
+		returnsKey := false
+		ast.Inspect(rs.Body, func(m ast.Node) bool {
+			if r, ok := m.(*ast.ReturnStmt); ok && len(r.Results) >= 1 {
+				e := ast.Unparen(r.Results[0])
+				if conv, ok := e.(*ast.CallExpr); ok && len(conv.Args) == 1 {
+					e = ast.Unparen(conv.Args[0])
+				}
+				if id, ok := e.(*ast.Ident); ok && info.Uses[id] == info.Defs[kid] {
+					returnsKey = true
+				}
+			}
+			return true
+		})
+		if !returnsKey {
+			return true
+		}
+		// the initialiser
+		var lit *ast.CompositeLit
+		for _, file := range p.Syntax {
+			for _, d := range file.Decls {
+				gd, ok := d.(*ast.GenDecl)
+				if !ok {
+					continue
+				}
+				for _, sp := range gd.Specs {
+					vs, ok := sp.(*ast.ValueSpec)
+					if !ok {
+						continue
+					}
+					for i, nm := range vs.Names {
+						if info.Defs[nm] == tv && i < len(vs.Values) {
+							lit, _ = ast.Unparen(vs.Values[i]).(*ast.CompositeLit)
+						}
+					}
+				}
+			}
+		}
+		if lit == nil {
+			return true
+		}
+		next := int64(0)
+		for _, el := range lit.Elts {
+			idx := next
+			val := el
+			if kv, ok := el.(*ast.KeyValueExpr); ok {
+				k, isK := constInt(info, kv.Key)
+				if !isK {
+					out = nil
+					return true
+				}
+				idx, val = k, kv.Value
+			}
+			next = idx + 1
+			row, ok := ast.Unparen(val).(*ast.CompositeLit)
+			if !ok {
+				out = nil
+				return true
+			}
+			out = append(out, namesRow{idx, row.Elts, row.Pos()})
+		}
+		return true
+	})
+	return out
 }
